@@ -277,7 +277,16 @@ SOURCES = {
     "u": "def u(c: Parameter[Qint[2]], a: Qint[2]) -> bool:\n\treturn a == c",
     "u2": "def u2(c: Parameter[Qlist[Qint[2], 4]], a: Qint[2]) -> Qint[2]:\n\treturn c[a]",
     "red": "def red(a: bool, b: bool, c: bool) -> bool:\n\treturn (a and b) ^ (c and (a and b))",
+    # same name AND same expressions, different signatures (argument order / widths): anything keyed on name+expressions confuses them
+    "pick_ab": "def pick(a: bool, b: bool) -> bool:\n\treturn a",
+    "pick_ba": "def pick(b: bool, a: bool) -> bool:\n\treturn a",
+    "low_2": "def low(v: Qint[2]) -> bool:\n\treturn v[0]",
+    "low_4": "def low(v: Qint[4]) -> bool:\n\treturn v[0]",
+    # two user types with the same __name__ and different widths (passed with types=[...])
+    "word3": "def lw(w: Word) -> bool:\n\treturn w[0] and not w[2]",
+    "word5": "def lw(w: Word) -> bool:\n\treturn w[0] and not w[4]",
 }
+CUSTOM_TYPES = {"word3": ("lw3", "WordA"), "word5": ("lw5", "WordB")}
 CALLER = "def caller(x: Qint[2]) -> Qint[2]:\n\treturn g(x) + 1"
 
 
@@ -337,7 +346,12 @@ def do_op(op, live):
     from qlasskit import qlassf
     kind = op[0]
     if kind == "compile":
-        return qlassf(SOURCES[op[1]], bool_optimizer=__import__("vlib.bounded", fromlist=["x"]).profiles()[op[2]])
+        prof = __import__("vlib.bounded", fromlist=["x"]).profiles()[op[2]]
+        if op[1] in CUSTOM_TYPES:
+            from .. import c10_custom
+            fn, ty = CUSTOM_TYPES[op[1]]
+            return qlassf(getattr(c10_custom, fn), types=[getattr(c10_custom, ty)], bool_optimizer=prof)
+        return qlassf(SOURCES[op[1]], bool_optimizer=prof)
     if kind == "bind":
         return live[op[1]].bind(c=op[2])
     if kind == "decopt_preserve":
@@ -431,6 +445,7 @@ def histories(tier, seed):
     unary = {"o_f": [], "o_flat": ["dj", "bv", "simon", "grover"], "o_inc": ["simon"], "o_id": ["dj", "bv", "grover"], "o_red": ["grover", "dj", "simon"],
              "o_or": ["grover", "dj"], "o_g": ["defs", "simon"], "o_tup": ["grover", "dj"], "o_u": [], "o_u2": [], "o_redd": ["decopt_preserve", "dj", "grover"]}
     hs = []
+    clash_creators = {}
     # every ordered pair of (operation x object) after building the pool
     ops = []
     for k, us in unary.items():
@@ -451,9 +466,17 @@ def histories(tier, seed):
         chosen = r.sample(ops, 10 if tier == "quick" else 14)
         # recompile same-named sources in between (clashing names)
         extra = [("o_id2", ("compile", "test_id", "default")), ("o_inc2", ("compile", "test_inc", "fast")), ("o_flat2", ("compile", "flatten", "fast"))]
+        clash = [[("o_pab", ("compile", "pick_ab", "default")), ("o_pba", ("compile", "pick_ba", "default")), (None, ("truth_table", "o_pba")), (None, ("export", "o_pab", "qasm"))],
+                 [("o_l2", ("compile", "low_2", "default")), ("o_l4", ("compile", "low_4", "default")), (None, ("export", "o_l4", "qasm")), (None, ("truth_table", "o_l2"))],
+                 [("o_w3", ("compile", "word3", "default")), ("o_w5", ("compile", "word5", "default")), (None, ("export", "o_w5", "qasm")), (None, ("truth_table", "o_w3"))],
+                 [("o_w5f", ("compile", "word5", "fast")), ("o_w3f", ("compile", "word3", "fast")), ("o_pbaf", ("compile", "pick_ba", "fast")), ("o_pabf", ("compile", "pick_ab", "fast")),
+                  (None, ("truth_table", "o_pabf")), (None, ("export", "o_w3f", "qasm"))]][i % 4]
+        for t_, op_ in clash:
+            if t_:
+                clash_creators[t_] = op_
         forced = [("t1", ("bind", "o_u2", [1, 2, 3, 0])), ("t2", ("bind", "o_u2", [3, 3, 0, 1]))] if i % 2 == 0 else \
                  [(None, ("decopt_preserve", "o_redd")), (None, ("export", "o_redd", "qasm")), (None, ("truth_table", "o_redd"))]
-        for t, op in chosen + r.sample(extra, 2) + forced:
+        for t, op in chosen + r.sample(extra, 2) + forced + clash:
             for need in needs(op):
                 if need not in built:
                     h.append(next(p for p in base_objs if p[0] == need))
@@ -466,7 +489,7 @@ def histories(tier, seed):
                 h.append((None, ("truth_table", op[1])))
                 h.append((None, ("export", op[1], "qasm")))
         hs.append(h)
-    return hs, dict(base_objs)
+    return hs, {**dict(base_objs), **clash_creators}
 
 
 def dynamic_job(a):
@@ -533,6 +556,9 @@ def run(tier, only=None):
             ref = refs.get(opkey(op))
             if ref is None:
                 rs.append(res(nm, common.UNDECIDED, detail="no reference result", **base))
+            elif op[0] == "compile" and ref[1] is not None:
+                # vacuity guard: every program of the pool compiles when it is alone; an error here means the harness is broken
+                rs.append(res(nm, common.ENGINE, detail=f"the reference compilation raises: {ref[1]}", **base))
             elif (json.dumps(ref[0], default=str), ref[1]) != (json.dumps(rec["result"], default=str), rec["error"]):
                 rs.append(res(nm, REFUTED, replayed=True, replay=dict(history=htxt, observed=str(rec["result"] if rec["error"] is None else rec["error"])[:700],
                                                                       fresh_process_result=str(ref[0] if ref[1] is None else ref[1])[:700]), **base))
